@@ -44,6 +44,14 @@ _m = {}
 _dir = [None]
 
 
+
+def _workdir():
+    """one directory per worker process: SQLite creates and deletes journal files all the time, and sixteen workers doing that in one
+    tmpfs directory serialise on it"""
+    d = os.path.join(_dir[0], "p%d" % os.getpid())
+    os.makedirs(d, exist_ok=True)
+    return d
+
 def setup():
     from sqlalchemy import create_engine, text, exc, event
     from sqlalchemy.pool import QueuePool
@@ -125,7 +133,7 @@ class H:
 
 def run_case(case):
     create_engine, text, exc, event = _m["create_engine"], _m["text"], _m["exc"], _m["event"]
-    path = os.path.join(_dir[0], "t%d.db" % os.getpid())
+    path = os.path.join(_workdir(), "t.db")
     for suffix in ("", "-journal", "-wal", "-shm"):
         try:
             os.unlink(path + suffix)
